@@ -519,7 +519,7 @@ def block_diagonalize(
         def _mask_like(mask, x):
             # The mask of an exactly zero H_0 block is 1x1 because the block size is
             # not known; numpy and scipy broadcast it, sympy does not.
-            if mask.shape == x.shape:
+            if isinstance(mask, sympy.MatrixBase) and mask.shape == x.shape:
                 return mask
             return sympy.Matrix(np.broadcast_to(np.array(mask), x.shape))
 
